@@ -8,7 +8,7 @@ A spec record is immutable (frozen dataclass) and holds *references* to its two 
 Mirrors `formulaic/model_spec.py` (`from_spec`, `update`, `subset`, `get_model_matrix`) and
 `formulaic/materializers/base.py` (`get_model_matrix` steps 0-3, `_prepare_model_specs`,
 `_prepare_factor_evaluation_model_spec`, `_evaluate_factor`, `_build_model_matrix`,
-`_encode_evaled_factor`).
+`_encode_evaled_factor` with its per-call `encoded_cache` and `encoder_state_cache`).
 
 Numerics are abstract (`Params`): the state a stateful transform fits is a function of the call
 node and the data set; the encoder state (levels) is a function of the factor, the data set and the
@@ -217,13 +217,32 @@ abbrev EncCache (E : Type) := Factor → Bool → Option E
 def EncCache.set (c : EncCache E) (f : Factor) (r : Bool) (v : E) : EncCache E :=
   fun f' r' => if f' = f ∧ r' = r then some v else c f' r'
 
+/-- the materializer's per-call encoding caches: `encoded_cache` keyed by `(factor.expr,
+reduced_rank)`, and `encoder_state_cache` keyed by `factor.expr` (the LAST state an encoding of the
+factor was computed with) -/
+abbrev Caches (E : Type) := EncCache E × Dict E
+
+def Caches.empty {E : Type} : Caches E := (fun _ _ => none, Dict.empty)
+
 /-- loop state of the encoding loops: the world (cells are written in place), the materializer's
-`encoded_cache`, and the columns so far (or the exception that was raised) -/
-abbrev EncSt (F E : Type) := World F E × EncCache E × Except Err (List (ColInfo F E))
+encoding caches, and the columns so far (or the exception that was raised) -/
+abbrev EncSt (F E : Type) := World F E × Caches E × Except Err (List (ColInfo F E))
+
+/-- `spec.encoder_state.setdefault(expr, self.encoder_state_cache[expr])` when the factor is in the
+state cache (IN PLACE; a spec's own entry is never overridden) -/
+def recordState (w : World F E) (er : Nat) (esc : Dict E) (f : Factor) : World F E :=
+  match esc f with
+  | none => w
+  | some v =>
+    match w.ecells er f with
+    | some _ => w
+    | none => w.setE er ((w.ecells er).set f v)
 
 /-- `_encode_evaled_factor(factor, spec, ..., reduced_rank)` where `er` is the `encoder_state` cell of
-`spec`: on a cache miss the recorded state `spec.encoder_state.get(expr)` is used if present,
-otherwise the encoder fits on the kept rows; then `spec.encoder_state[expr] = ...` IN PLACE -/
+`spec`.  First the spec records the cached state of the factor (if any encoding of it was computed
+in this call).  On a miss of the encoded-cache the recorded state `spec.encoder_state.get(expr)` is
+used if present, otherwise the encoder fits on the kept rows; then `spec.encoder_state[expr] = ...`
+IN PLACE, and both caches are filled -/
 def encodeFactor (d : Data) (kept : List Nat) (cache : Dict (List (String × F))) (er : Nat)
     (st : EncSt F E) (fr : Factor × Bool) : EncSt F E :=
   match st.2.2 with
@@ -232,13 +251,14 @@ def encodeFactor (d : Data) (kept : List Nat) (cache : Dict (List (String × F))
     match cache fr.1 with
     | none => (st.1, st.2.1, .error .keyError)
     | some fits =>
-      match st.2.1 fr.1 fr.2 with
-      | some enc => (st.1, st.2.1, .ok (acc ++ [⟨fr.1, fr.2, fits, enc⟩]))
+      let w1 := recordState st.1 er st.2.1.2 fr.1
+      match st.2.1.1 fr.1 fr.2 with
+      | some enc => (w1, st.2.1, .ok (acc ++ [⟨fr.1, fr.2, fits, enc⟩]))
       | none =>
-        let enc := match st.1.ecells er fr.1 with
+        let enc := match w1.ecells er fr.1 with
           | some v => v
           | none => P.encFit fr.1 d kept
-        (st.1.setE er ((st.1.ecells er).set fr.1 enc), st.2.1.set fr.1 fr.2 enc,
+        (w1.setE er ((w1.ecells er).set fr.1 enc), (st.2.1.1.set fr.1 fr.2 enc, st.2.1.2.set fr.1 enc),
           .ok (acc ++ [⟨fr.1, fr.2, fits, enc⟩]))
 
 /-- what `_build_model_matrix` needs to know about one term: the term, and what its scoped terms
@@ -279,7 +299,7 @@ def newStructure (keys : List TermKey) (ec : EncCache E) : List (StructEntry E) 
   keys.map fun k => ⟨k.term, k.origin, k.efr, k.data,
     (TermKey.factors P k).filterMap fun fr => (ec fr.1 fr.2).map fun v => (fr.1, fr.2, v)⟩
 
-abbrev BuildSt (F E : Type) := World F E × EncCache E × Except Err (List (Part F E × Spec E))
+abbrev BuildSt (F E : Type) := World F E × Caches E × Except Err (List (Part F E × Spec E))
 
 /-- `_build_model_matrix(spec, drop_rows)` for one prepared spec; returns the part and the spec
 attached to the produced matrix (the prepared spec itself, or `spec.update(structure=...)`: the same
@@ -299,7 +319,7 @@ def buildOne (d : Data) (kept : List Nat) (cache : Dict (List (String × F)))
         if P.encodingFails part then (r.1, r.2.1, .error .encoding)
         else (r.1, r.2.1, .ok (acc ++ [(part, { p with struct := some s })]))
       | none =>
-        let s := newStructure P (Spec.termsToBuild p d) r.2.1
+        let s := newStructure P (Spec.termsToBuild p d) r.2.1.1
         (r.1, r.2.1, .ok (acc ++ [(⟨p.formula, p.cfg, d, kept, p.formula, cols, s⟩,
           { p with struct := some s })]))
 
@@ -354,7 +374,7 @@ def materialize (w : World F E) (ps : List (Spec E)) (d : Data) (order : List Fa
       | .ok ev =>
         let kept := (List.range (P.nrows d)).filter fun i => !ev.drops i
         let w2 := writeBack ev.state w (p0 :: ps)
-        let r := (p0 :: ps).foldl (buildOne P d kept ev.cache) (w2, fun _ _ => none, .ok [])
+        let r := (p0 :: ps).foldl (buildOne P d kept ev.cache) (w2, Caches.empty, .ok [])
         (r.1, r.2.2)
     else (w, .error .inconsistent)
 
